@@ -15,6 +15,7 @@ from ..core import Ctx, Rule
 from ..envterms import Spec, bind, evaluate, lor, merge, out, show, _freeze
 from ..facts import ShapeError, call_name, calls_in, dotted, kwarg, norm, walk_no_nested
 from ..tables import Opaque, decide
+from .gensym_rules import IDENT, identifier_spelling_rule
 
 SYNTAX = 'fpy2/analysis/syntax_check.py'
 REACH = 'fpy2/analysis/reachability.py'
@@ -25,6 +26,63 @@ E = 'ENTRY'
 
 def _eq(a, b) -> bool:
     return _freeze(a) == _freeze(b)
+
+
+def _comprehension_scopes(ctx: Ctx):
+    """The checker's scoping of a comprehension against the interpreter's (a comprehension is compiled to a Python one):
+    the first iterable is evaluated in the enclosing scope; every later iterable and the element are evaluated inside
+    the comprehension, where each of its targets is a local -- readable once bound, *unbound* before, whatever the
+    enclosing scope calls by that name.  `_visit_list_comp` is evaluated, from its source, on every comprehension of up
+    to three generators whose targets are drawn from two names also bound outside; at each position the names it lets
+    an expression read must be readable there at run time (letting fewer through only rejects more programs)."""
+    from itertools import product
+
+    from ..minipy import Interp, Obj
+    cls = ctx.repo.cls(SYNTAX, 'SyntaxCheckInstance')
+    methods = {f.name: f for f in cls.body if isinstance(f, ast.FunctionDef)}
+    fn = methods['_visit_list_comp']
+    names = {k: Obj('NamedId', label=k) for k in ('x', 'y', 'z')}
+    for o in names.values():
+        o.fields['names'] = (lambda o=o: {o})
+
+    def mk_env(d, terminated=False):
+        e = Obj('_Env', env=dict(d or {}), terminated=terminated)
+        e.fields['extend'] = lambda var, e=e: mk_env({**e.fields['env'], var: True}, e.fields['terminated'])
+        return e
+
+    def mk_ctx(env, within_call=False):
+        return Obj('_Ctx', env=env, within_call=within_call)
+    n = 0
+    bad = None
+    outer = {names['x']: True, names['y']: True}      # x and y are also names of the enclosing scope; z is not
+    for k in (1, 2, 3):
+        for tg in product(('x', 'y', 'z'), repeat=k):
+            seen: list[tuple[str, frozenset]] = []
+            its = [Obj('Expr', label=f'iterable {i}') for i in range(k)]
+            elt = Obj('Expr', label='element')
+            comp = Obj('ListComp', targets=[names[t] for t in tg], iterables=its, elt=elt)
+
+            def visit(e, c, seen=seen):
+                env = c.fields['env'].fields['env']
+                seen.append((e.fields['label'], frozenset(nm.fields['label'] for nm, okk in env.items() if okk)))
+            it = Interp({}, methods=methods, overrides={'self._visit_expr': visit, '_Env': mk_env, '_Ctx': mk_ctx},
+                        is_a=lambda kind, c: kind == c or (kind == 'NamedId' and c == 'Id'), self_obj=Obj('SyntaxCheckInstance'))
+            it.call_function(fn, [comp, mk_ctx(mk_env(outer))], bound_self=True)
+            n += 1
+            want = {'iterable 0': {'x', 'y'}, 'element': {'x', 'y'} | set(tg)}
+            for i in range(1, k):
+                pending = set(tg[i:]) - set(tg[:i])
+                want[f'iterable {i}'] = ({'x', 'y'} - pending) | set(tg[:i])
+            labels = [s[0] for s in seen]
+            if sorted(labels) != sorted(want) and bad is None:
+                bad = f'`[.. {" ".join("for " + t + " in .." for t in tg)}]`: visited {labels}'
+            for lab, can in seen:
+                extra = can - want.get(lab, set())
+                if extra and bad is None:
+                    bad = (f'`[.. {" ".join("for " + t + " in <" + str(i) + ">" for i, t in enumerate(tg))}]` with x, y bound outside: {lab} may read {sorted(extra)}, '
+                           f'which is a local of the comprehension not yet bound there')
+    ctx.check(bad is None, SYNTAX, fn, 'SyntaxCheckInstance._visit_list_comp', f'each iterable and the element read only names that are bound there at run time ({n} comprehension shapes)',
+              (bad or '') + ' -- the accepted program fails with an unbound local on every input')
 
 
 def d1_syntax_equations(ctx: Ctx):
@@ -105,12 +163,7 @@ def d1_syntax_equations(ctx: Ctx):
     ctx.check('if isinstance(arg.name, NamedId):' in t and 'env = env.extend(arg.name)' in t and 'return self._visit_block(func.body, _Ctx(env, False))' in t, SYNTAX, fn,
               'SyntaxCheckInstance._visit_function', 'named arguments are bound on entry; the body is checked under that environment', 'changed')
     # comprehension: each iterable under the targets bound so far; the element under all of them
-    fn = ctx.fn(SYNTAX, 'SyntaxCheckInstance._visit_list_comp')
-    loops = [s for s in walk_no_nested(fn) if isinstance(s, ast.For)]
-    good = len(loops) == 1 and [norm(s) for s in loops[0].body] == ['self._visit_expr(iterable, ctx)', 'env = self._visit_binding(target, ctx.env)', 'ctx = _Ctx(env, ctx.within_call)']
-    last = fn.body[-1]
-    good = good and norm(last) == 'self._visit_expr(e.elt, _Ctx(env, ctx.within_call))'
-    ctx.check(good, SYNTAX, fn, 'SyntaxCheckInstance._visit_list_comp', 'iterable k sees targets 1..k-1; the element sees all targets; nothing leaks out', 'comprehension scoping changed')
+    _comprehension_scopes(ctx)
     # a use must be bound on all paths
     fn = ctx.fn(SYNTAX, 'SyntaxCheckInstance._mark_use')
     t = norm(fn, 4000)
@@ -232,6 +285,7 @@ ASSUMPTIONS = ['the interpreter lowers FPy control flow to the same-named Python
 RULES = [
     Rule('C15.D1', 'SyntaxCheck environment equations for every statement kind', d1_syntax_equations, 32, 'D'),
     Rule('C15.T1', '_Env.merge / extend tables', t1_env_merge, 6, 'T'),
+    Rule('C15.T2', 'two spellings are two identifiers: the base / count split of a name is undone by printing it', identifier_spelling_rule, 3, 'T'),
     Rule('C15.D2', 'Reachability transfer functions and error checks', d2_reachability, 16, 'D,T'),
     Rule('C15.P1', '@fpy runs SyntaxCheck and Reachability (both checks) on every path before Function(ast)', p1_decorator_pipeline, 3, 'P'),
 ]
@@ -239,6 +293,16 @@ RULES = [
 from ..selftest import Mutant  # noqa: E402
 
 MUTANTS = [
+    Mutant('leading-zeros-dropped-from-the-count', IDENT, '(0|[1-9]\\d*)$', '(\\d+)$', 'C15.T2', 'finding F41 before its repair: x01 is x1'),
+    Mutant('count-pattern-unanchored', IDENT, '(0|[1-9]\\d*)$', '(0|[1-9]\\d*)', 'C15.T2'),
+    Mutant('explicit-count-unvalidated', IDENT, "            if _split_id(base + str(count)) != (base, count):\n                raise ValueError(f'base name cannot have a digit suffix: {base}')\n", "            pass\n", 'C15.T2'),
+    Mutant('later-iterable-reads-enclosing-name', SYNTAX, "            self._visit_expr(iterable, iter_ctx)\n", "            self._visit_expr(iterable, ctx)\n", 'C15.D1',
+           'finding F40 before its repair: `[y for x in xs for y in y]` is accepted when y is an argument'),
+    Mutant('own-target-bound-before-its-iterable', SYNTAX, "            self._visit_expr(iterable, iter_ctx)\n            bound |= target.names()\n            env = self._visit_binding(target, ctx.env)\n            ctx = _Ctx(env, ctx.within_call)",
+           "            bound |= target.names()\n            env = self._visit_binding(target, ctx.env)\n            ctx = _Ctx(env, ctx.within_call)\n            self._visit_expr(iterable, ctx if i > 0 else iter_ctx)", 'C15.D1',
+           'seeded change C15c (on the repaired code): an iterable may name its own target'),
+    Mutant('first-iterable-hidden-too', SYNTAX, "            if i > 0:\n                # Only the first", "            if i >= 0:\n                # Only the first", 'C15.D1',
+           'rejects `[x for x in x]`, which runs: stricter than needed, never unsound', expect='silent'),
     Mutant('for-target-escapes', SYNTAX, "        loop_env = self._visit_binding(stmt.target, env)\n        body_env = self._visit_block(stmt.body, _Ctx(loop_env, False))\n        return env.merge(body_env)",
            "        env = self._visit_binding(stmt.target, env)\n        body_env = self._visit_block(stmt.body, _Ctx(env, False))\n        return env.merge(body_env)", 'C15.D1', 'the defect repaired by the fix: commit'),
     Mutant('if1-body-always-runs', SYNTAX, "        ift_env = self._visit_block(stmt.body, ctx)\n        return env.merge(ift_env)", "        ift_env = self._visit_block(stmt.body, ctx)\n        return ift_env", 'C15.D1'),
@@ -250,7 +314,6 @@ MUTANTS = [
            "        env = self._visit_binding(stmt.target, ctx.env)\n        self._visit_expr(stmt.expr, _Ctx(env, False))\n        return env", 'C15.D1'),
     Mutant('return-not-terminated', SYNTAX, "        return _Env(terminated=True)\n\n    def _visit_pass", "        return ctx.env\n\n    def _visit_pass", 'C15.D1'),
     Mutant('block-not-threaded', SYNTAX, "            env = self._visit_statement(stmt, _Ctx(env, False))", "            env = self._visit_statement(stmt, ctx)", 'C15.D1'),
-    Mutant('comp-target-visible-to-own-iterable', SYNTAX, "            self._visit_expr(iterable, ctx)\n            env = self._visit_binding(target, ctx.env)", "            env = self._visit_binding(target, ctx.env)\n            self._visit_expr(iterable, _Ctx(env, ctx.within_call))", 'C15.D1'),
     Mutant('partial-definition-accepted', SYNTAX, "            if not env[name]:\n                raise FPySyntaxError(f'variable `{name}` not defined along all paths')\n", "", 'C15.D1'),
     Mutant('merge-is-or', SYNTAX, "copy.env[key] = self.env.get(key, False) and other.env.get(key, False)", "copy.env[key] = self.env.get(key, False) or other.env.get(key, False)", 'C15.T1'),
     Mutant('merge-terminated-dominates', SYNTAX, "        if self.terminated:\n            return _Env(other.env)", "        if self.terminated:\n            return _Env(self.env)", 'C15.T1'),
